@@ -2,6 +2,7 @@ package main
 
 import (
 	"bytes"
+	"errors"
 	"fmt"
 	"net"
 	"sync"
@@ -431,7 +432,11 @@ func (h *handler) oneCall(ci *connInfo, cb string) {
 	case k < 44:
 		h.doCall(ci, "discard", sz, nil, false)
 	case k < 48:
-		h.doCall(ci, "writeto", 0, nil, false)
+		lim := -1
+		if writeToLimits && h.rnd.Chance(45) {
+			lim = h.rnd.Pick([]int{0, 1, 3, sz, h.cfg.bufcap / 2, h.cfg.bufcap + 7})
+		}
+		h.doCall(ci, "writeto", lim, nil, false)
 	case k < 54:
 		h.doCall(ci, "inbuf", 0, nil, false)
 	case k < 60:
@@ -488,7 +493,30 @@ func segArgs(segs [][]byte) []string {
 	return a
 }
 
-type sink struct{ bytes.Buffer }
+// sink is the io.Writer handed to Conn.WriteTo: with lim >= 0 it takes at most lim more bytes in
+// total and fails a Write it cannot take whole (the io.Writer contract for a short write)
+type sink struct {
+	bytes.Buffer
+	lim int
+}
+
+var errSinkFull = errors.New("sink full")
+
+func (s *sink) Write(p []byte) (int, error) {
+	if s.lim < 0 || len(p) <= s.lim {
+		if s.lim >= 0 {
+			s.lim -= len(p)
+		}
+		return s.Buffer.Write(p)
+	}
+	n := s.lim
+	s.Buffer.Write(p[:n])
+	s.lim = 0
+	return n, errSinkFull
+}
+
+// writeToLimits: the model's `h writeto <lim>` (a WriteTo into a writer that fails part-way)
+const writeToLimits = false
 
 // hl builds the `h` input line of a handler call; calls on a connection other than the
 // one the callback is for are written `h on <cid> <call> ...`
@@ -554,8 +582,12 @@ func (h *handler) doCall(ci *connInfo, call string, n int, data []byte, cb bool)
 		ci.consumed += m
 		h.checkInbound(ci, "discard")
 	case "writeto":
-		h.op(ci, h.hl(ci, "writeto"))
-		var s sink
+		s := sink{lim: n}
+		if n < 0 {
+			h.op(ci, h.hl(ci, "writeto"))
+		} else {
+			h.op(ci, h.hl(ci, "writeto", tr.I(n)))
+		}
 		m, err := c.WriteTo(&s)
 		h.obs(ci, tr.L("hr", tr.I(ci.mcid), "writeto", tr.X(s.Bytes()), tr.I(int(m)), errSym(err)))
 		h.expectConsumed(ci, s.Bytes(), "WriteTo")
